@@ -85,6 +85,7 @@ class Comb:
         self.zeta_ok = False
         self.gathers: List[Tuple[str, str, T]] = []  # (dest, src, index)
         self.inplace: List[Tuple[int, str, str]] = []  # gathers that read a buffer the copy loop writes
+        self.tree_gather: Optional[str] = None          # tree_map(lambda b: b[index], <container>): the container
         self.copy_only = True
         self.where_root = None
 
@@ -226,6 +227,18 @@ def analyse_comb(ctx, fi: FuncInfo) -> Comb:
         w_out = strip_wrappers(R.args[0])
         if w_out.op == "getitem" and norm_iter(strip_wrappers(w_out.args[1])) is norm_iter(index_term):
             c.gathers.append(("return", show(strip_wrappers(w_out.args[0]), maxdepth=3), w_out.args[1]))
+        if w_out.op == "call" and (func_name(w_out) or "").split(".")[-1] in ("tree_map", "map") and \
+                "tree" in (func_name(w_out) or "") and len(call_parts(w_out)[1]) == 2 and call_parts(w_out)[1][0].op == "closure":
+            # tree_map(lambda block: block[index], walkers): every array of the walker container is gathered with the
+            # one comb index (the container's shape -- one array or an [up, dn] pair -- does not matter)
+            leaf = sym("§leaf")
+            try:
+                body = strip_wrappers(ev.open_closure(call_parts(w_out)[1][0], [leaf]))
+            except AnalysisError:
+                body = None
+            if body is not None and body.op == "getitem" and body.args[0] is leaf and \
+                    norm_iter(strip_wrappers(body.args[1])) is norm_iter(index_term):
+                c.tree_gather = show(call_parts(w_out)[1][1], maxdepth=2)
     c.events = ev.events
     c.ev = ev
     c.result = R
@@ -290,6 +303,10 @@ def _copies(ctx, fi: FuncInfo, c: Comb):
                     and nd.slice.value in (0, 1) for nd in ast.walk(fi.node))
     n_g = len(c.gathers)
     want = 2 if uses_pair else 1
+    if c.tree_gather is not None and n_g == 0:
+        ctx.ob("PAIR-1", f"{q}: every block of the walker container is gathered with the comb index", True,
+               f"tree_map(block -> block[index], {c.tree_gather})", fi)
+        return
     ctx.ob("PAIR-1", f"{q}: {'both spin blocks are' if uses_pair else 'the walker block is'} gathered with the comb index",
            n_g == want, f"{n_g} gather(s) by the searchsorted index: {[(d, s) for d, s, _ in c.gathers]}"
            + ("" if n_g == want else f" (expected {want})"), fi)
@@ -339,6 +356,7 @@ def callers(ctx):
             ctx.ob("PRNG-1", f"{fi.qualname}: the key is split before the offset is drawn", k_split >= 1,
                    f"{k_split} random.split call(s)", fi)
             ev = Evaluator(p)
+            ev.auto_inline_helpers = True
             fr = ev.eval_function(fi)
             R = ev.result(fr)
             calls = [e.data for e in ev.events if e.kind == "call" and e.data.args[0].op == "fn"
@@ -348,7 +366,18 @@ def callers(ctx):
                 continue
             c = calls[0]
             _, pos, kws = call_parts(c)
-            pd = sym("prop_data")
+            # the comb's public signature is (walkers, weights, zeta[, comm]); arguments may be passed by keyword
+            from ..model import bind_call
+            comb_fi = p.functions[c.args[0].args[0]]
+            okb_, _, mp_ = bind_call(comb_fi, len(pos), list(kws), False)
+            actual = {h_: (pos[m_[1]] if m_[0] == "pos" else kws[m_[1]]) for h_, m_ in mp_.items()} if okb_ else {}
+            cparams = [x.name for x in comb_fi.pos_params()]
+            pos = [actual.get(h_) for h_ in cparams]
+            while pos and pos[-1] is None:
+                pos.pop()
+            if any(a_ is None for a_ in pos):
+                pos = []
+            pd = sym([x.name for x in fi.params if x.name != "self"][0])
             # arguments: walkers, weights of the same prop_data; zeta = uniform(subkey)
             arg_ok = len(pos) >= 3 and pos[0] is getitem(pd, const("walkers")) and \
                 pos[1] is getitem(pd, const("weights"))
@@ -381,7 +410,7 @@ def callers(ctx):
                    f"{callee.qualname} treats walkers as {'[up, dn]' if callee_pair else 'one array'}; "
                    f"{q} stores them as {'[up, dn]' if cls_pair else 'one array'}", fi)
             if mname.endswith("global"):
-                has_comm = any(x is sym("comm") for x in pos) or "comm" in kws
+                has_comm = any(x is sym("comm") for x in pos if x is not None) or "comm" in kws
                 ctx.ob("MPI-2", f"{fi.qualname}: forwards the communicator", has_comm, "comm passed", fi)
     if n < 4:
         raise AnalysisError(f"found {n} reconfiguration callers (expected 4)")
@@ -537,11 +566,20 @@ def stub(ctx):
         fi = ci.methods.get(mname)
         ok = False
         if fi is not None:
+            # evaluated with the class's own helpers in place: a store into the receive buffer whose value is the send
+            # buffer (recbuf[:] = sendbuf), or numpy.copyto(recbuf, sendbuf)
             prm = [x.name for x in fi.params if x.name != "self"]
-            for nd in ast.walk(fi.node):
-                if isinstance(nd, ast.Assign) and isinstance(nd.targets[0], ast.Subscript) and \
-                        isinstance(nd.targets[0].value, ast.Name) and isinstance(nd.value, ast.Name):
-                    ok = nd.targets[0].value.id == prm[1] and nd.value.id == prm[0]
+            ev = Evaluator(p)
+            ev.auto_inline_helpers = True
+            ev.eval_function(fi, self_class="config.not_a_comm")
+            snd, rcv = sym(prm[0]), sym(prm[1])
+            for e in ev.events:
+                if e.kind == "store" and e.data[5] is rcv and strip_wrappers(e.data[2]) is snd:
+                    ok = True
+                if e.kind == "call" and (func_name(e.data) or "").endswith("copyto"):
+                    cp_ = call_parts(e.data)[1]
+                    if len(cp_) == 2 and cp_[0] is rcv and strip_wrappers(cp_[1]) is snd:
+                        ok = True
         ctx.ob("BIND-5", f"config.not_a_comm.{mname} copies the send buffer into the receive buffer", ok,
                "recbuf[:] = sendbuf" if ok else "stub does not copy send -> receive", fi)
     fi = ci.methods.get("bcast")
